@@ -376,44 +376,49 @@ async fn serve_tls(case: Value, acceptor: tokio_rustls::TlsAcceptor) -> SocketAd
     let listener = TcpListener::bind(("127.0.0.1", 0)).await.unwrap();
     let addr = listener.local_addr().unwrap();
     drop(tokio::spawn(async move {
-        let Ok((tcp, _)) = listener.accept().await else { return };
-        let _ = tcp.set_nodelay(true);
-        let stage = case["hello_close"].as_str().unwrap_or("none").to_string();
-        if stage == "pre-tls" || stage == "tls-accept" {
-            drop(tcp);
-            return;
-        }
-        if stage == "tls-greeting" || stage == "tls-greeting-reset" {
-            // the peer goes away in the middle of the TLS handshake: ClientHello read, nothing answered
-            let mut tcp = tcp;
-            let mut b = [0u8; 4096];
-            let _ = tcp.read(&mut b).await;
-            if stage == "tls-greeting-reset" {
-                let _ = tcp.set_linger(Some(Duration::ZERO));
+        // a server that is in one of the set-up states treats every new connection the same way (a client that knocks
+        // again gets the same answer)
+        loop {
+            let Ok((tcp, _)) = listener.accept().await else { return };
+            let _ = tcp.set_nodelay(true);
+            let stage = case["hello_close"].as_str().unwrap_or("none").to_string();
+            if stage == "pre-tls" || stage == "tls-accept" {
+                drop(tcp);
+                continue;
             }
-            drop(tcp);
+            if stage == "tls-greeting" || stage == "tls-greeting-reset" {
+                // the peer goes away in the middle of the TLS handshake: ClientHello read, nothing answered
+                let mut tcp = tcp;
+                let mut b = [0u8; 4096];
+                let _ = tcp.read(&mut b).await;
+                if stage == "tls-greeting-reset" {
+                    let _ = tcp.set_linger(Some(Duration::ZERO));
+                }
+                drop(tcp);
+                continue;
+            }
+            if stage == "tls-garbage" {
+                // not a TLS server at all: answers the ClientHello with a text banner and hangs up
+                let mut tcp = tcp;
+                let mut b = [0u8; 4096];
+                let _ = tcp.read(&mut b).await;
+                let _ = tcp.write_all(b"220 this is not a TLS server\r\n").await;
+                let _ = tcp.flush().await;
+                tokio::time::sleep(Duration::from_millis(PAUSE_MS)).await;
+                drop(tcp);
+                continue;
+            }
+            if stage == "tls-silent-then-close" {
+                // accepts the connection, says nothing for a while, then hangs up
+                tokio::time::sleep(Duration::from_millis(300)).await;
+                drop(tcp);
+                continue;
+            }
+            let Ok(stream) = acceptor.accept(tcp).await else { return };
+            let mut peer = TlsPeer { stream: Some(stream), inbuf: Vec::new() };
+            run_peer(&mut peer, &case).await;
             return;
         }
-        if stage == "tls-garbage" {
-            // not a TLS server at all: answers the ClientHello with a text banner and hangs up
-            let mut tcp = tcp;
-            let mut b = [0u8; 4096];
-            let _ = tcp.read(&mut b).await;
-            let _ = tcp.write_all(b"220 this is not a TLS server\r\n").await;
-            let _ = tcp.flush().await;
-            tokio::time::sleep(Duration::from_millis(PAUSE_MS)).await;
-            drop(tcp);
-            return;
-        }
-        if stage == "tls-silent-then-close" {
-            // accepts the connection, says nothing for a while, then hangs up
-            tokio::time::sleep(Duration::from_millis(300)).await;
-            drop(tcp);
-            return;
-        }
-        let Ok(stream) = acceptor.accept(tcp).await else { return };
-        let mut peer = TlsPeer { stream: Some(stream), inbuf: Vec::new() };
-        run_peer(&mut peer, &case).await;
     }));
     addr
 }
